@@ -89,9 +89,16 @@ def main():
     ap.add_argument("--jobs", type=int, default=3)
     ap.add_argument("--limit", type=int)
     ap.add_argument("--cases", type=int, default=1500)
+    ap.add_argument("--survivors-of", help="directory with earlier mutgen_*.json: re-run only the mutants not killed there")
     a = ap.parse_args()
     for file in a.files or list(PROPS):
         muts = gen(file)
+        if a.survivors_of:
+            prev = os.path.join(a.survivors_of, "mutgen_" + file.replace("/", "-") + ".json")
+            if not os.path.exists(prev):
+                continue
+            keep = {r["id"] for r in json.load(open(prev))["results"] if r["status"] != "killed"}
+            muts = [m for m in muts if m["id"] in keep]
         if a.limit:
             muts = muts[:: max(1, len(muts) // a.limit)][: a.limit]
         print(f"== {file}: {len(muts)} mutants", flush=True)
@@ -117,8 +124,9 @@ def main():
         k = sum(r["status"] == "killed" for r in results)
         print(f"TOTAL {file}: {len(results)} mutants, {k} killed, {len(results) - k} not killed", flush=True)
         os.makedirs(os.path.join(HERE, "audit"), exist_ok=True)
+        name = "mutgen_" + file.replace("/", "-") + (".rerun" if a.survivors_of else "") + ".json"
         json.dump({"file": file, "total": len(results), "killed": k, "results": results},
-                  open(os.path.join(HERE, "audit", "mutgen_" + file.replace("/", "-") + ".json"), "w"), indent=1)
+                  open(os.path.join(HERE, "audit", name), "w"), indent=1)
 
 
 if __name__ == "__main__":
